@@ -497,3 +497,20 @@ PLAN["C10"]["outside"] = ("engines of other standard libraries; the engines' own
 PLAN["C10"]["bounds"] = {"quick": ITER_BOUNDS["quick"] + "; draw counts: float/double/long double digits x the (min,max) ranges of all standard engines and 7 "
                                   "synthetic ranges, every engine output symbolic", "thorough": ITER_BOUNDS["thorough"]}
 PLAN["C04"]["jobs"] = PLAN["C04"]["jobs"] + only(CANON_JOBS, lambda j: j["cfg"]["e"] in (1, 2, 3))
+
+# bit-precise flavours (z3 FloatingPoint theory): structural facts of kernels without pow/log and without symbolic x symbolic products
+UNIFORM_JOBS = [
+    S("h_vegas_pdf", dict(ob=2, Bmin=1, Bmax=40, d=2), ["uniform.grid_starts_at_zero"]),
+    S("h_vegas_pdf@24fp", dict(ob=2, Bmin=1, Bmax=300, d=1), ["uniform.grid_starts_at_zero"]),
+    S("h_vegas_pdf@53fp", dict(ob=2, Bmin=1, Bmax=300, d=1), ["uniform.grid_starts_at_zero"]),
+    S("h_vegas_pdf@24fp", dict(ob=2, Bmin=301, Bmax=1100, d=1), ["uniform.grid_starts_at_zero"], tiers=T),
+    S("h_vegas_pdf@53fp", dict(ob=2, Bmin=301, Bmax=1100, d=1), ["uniform.grid_starts_at_zero"], tiers=T),
+]
+PLAN["C07"]["jobs"] = PLAN["C07"]["jobs"] + UNIFORM_JOBS
+PLAN["C07"]["assumptions"] = PLAN["C07"]["assumptions"] + [
+    "jobs named @24fp/@53fp use the bit-precise model (IEEE binary32 / binary64, round to nearest even; the x87 80 bit format is not used: z3 4.8.12 returned a spurious model for it that the replay rejected) instead of exact reals"]
+FP_SELECT_JOBS = [
+    S("h_mc_kernels@24fp", dict(ob=1, C=2), ["select.never_a_disabled"], timeout_ms=120000, tiers=T),
+    S("h_mc_kernels@24fp", dict(ob=1, C=3), ["select.never_a_disabled"], timeout_ms=300000, tiers=T, split=8),
+]
+PLAN["C09"]["jobs"] = PLAN["C09"]["jobs"] + FP_SELECT_JOBS
